@@ -50,6 +50,7 @@ type pool struct {
 	idom   []int
 	dom    *graphalg.DomTree
 	simpl  graph.Weighted
+	huge   []float64      // optional: a slice beyond any plausible 'switch algorithm for large n' threshold (nil in most runs)
 	big    graph.IntGraph // optional: a graph whose node ids cross the mark set's growth boundary (nil in most runs)
 	invT   func(float64) float64
 	track  []tracked
@@ -170,6 +171,13 @@ func buildPool(g simkit.G) *pool {
 			for j := range w {
 				w[j] = float64(g.Range(1, 12)) / 4
 			}
+			// some zero weights, never all (a zero weight ahead of a non-zero one
+			// makes "compaction in place" visible)
+			if len(w) >= 2 && g.Chance(1, 2) {
+				for z := g.Range(1, len(w)/2); z > 0; z-- {
+					w[g.Intn(len(w)-1)] = 0
+				}
+			}
 			p.trackF(fmt.Sprintf("weights wts[%d]", i), w)
 		}
 		p.wts = append(p.wts, w)
@@ -178,6 +186,15 @@ func buildPool(g simkit.G) *pool {
 		xs := genFloats(g, g.Range(3, 20), true)
 		p.pos = append(p.pos, xs)
 		p.trackF(fmt.Sprintf("positive slice pos[%d]", i), xs)
+	}
+	if g.Chance(1, 16) {
+		n := 16400 + g.Intn(4000)
+		p.huge = mkF(n)
+		for i := range p.huge {
+			p.huge[i] = 1e3*g.Unit() - 300 + 1e-7*float64(i%97)
+		}
+		p.huge[0], p.huge[n-1] = 777, -777
+		p.trackF("huge float slice", p.huge)
 	}
 	// ---- samples (share the slices above) ----
 	for i := 0; i < nfl; i++ {
